@@ -1,4 +1,6 @@
 //! C01: composite destinations and filters behave as their logical definition; erased == generic.
+#[cfg(not(kani))]
+use crate::kani;
 use crate::oracles::*;
 use core::time::Duration;
 use emit::{
@@ -19,9 +21,9 @@ fn any_timeout() -> Duration {
 
 /// And: both sides receive the same event exactly once each; flush = lhs && rhs, each with timeout / 2,
 /// BOTH sides are flushed even when the left one fails.
-#[kani::proof]
-#[kani::unwind(6)]
-fn c01_emitter_and_contract() {
+#[cfg_attr(kani, kani::proof)]
+#[cfg_attr(kani, kani::unwind(6))]
+pub(crate) fn c01_emitter_and_contract() {
     let v: u64 = kani::any();
     let (fa, fb): (bool, bool) = (kani::any(), kani::any());
     let both = OracleEmitter::with_flush(fa).and_to(OracleEmitter::with_flush(fb));
@@ -39,9 +41,9 @@ fn c01_emitter_and_contract() {
 }
 
 /// Option / & / Box / Arc / Empty: forward once (or not at all for None / Empty); flush defers (true for None / Empty).
-#[kani::proof]
-#[kani::unwind(6)]
-fn c01_emitter_wrappers_contract() {
+#[cfg_attr(kani, kani::proof)]
+#[cfg_attr(kani, kani::unwind(6))]
+pub(crate) fn c01_emitter_wrappers_contract() {
     let v: u64 = kani::any();
     let fl: bool = kani::any();
     let props = [("k", v)];
@@ -102,9 +104,9 @@ impl<'a> Emitter for Ss<'a> {
 }
 
 /// The type-erased path is observationally the generic one: same single delivery, same event, same flush.
-#[kani::proof]
-#[kani::unwind(6)]
-fn c01_erased_emitter_equals_generic() {
+#[cfg_attr(kani, kani::proof)]
+#[cfg_attr(kani, kani::unwind(6))]
+pub(crate) fn c01_erased_emitter_equals_generic() {
     let v: u64 = kani::any();
     let fl: bool = kani::any();
     let props = [("k", v)];
@@ -127,9 +129,9 @@ fn c01_erased_emitter_equals_generic() {
 }
 
 /// wrapping::from_filter: forwarded iff the filter accepts what it is shown (the same event); flush defers unchanged.
-#[kani::proof]
-#[kani::unwind(6)]
-fn c01_wrap_from_filter_contract() {
+#[cfg_attr(kani, kani::proof)]
+#[cfg_attr(kani, kani::unwind(6))]
+pub(crate) fn c01_wrap_from_filter_contract() {
     let v: u64 = kani::any();
     let answer: bool = kani::any();
     let fl: bool = kani::any();
@@ -149,9 +151,9 @@ fn c01_wrap_from_filter_contract() {
 }
 
 /// Erased filters: `&dyn ErasedFilter` gives the oracle the same event and returns its answer; consulted once.
-#[kani::proof]
-#[kani::unwind(6)]
-fn c01_erased_filter_equals_generic() {
+#[cfg_attr(kani, kani::proof)]
+#[cfg_attr(kani, kani::unwind(6))]
+pub(crate) fn c01_erased_filter_equals_generic() {
     let v: u64 = kani::any();
     let answer: bool = kani::any();
     let props = [("k", v)];
@@ -165,9 +167,9 @@ fn c01_erased_filter_equals_generic() {
 
 /// Filter combinators over ORACLE children, observed through the erased path too: And = both (short-circuit:
 /// right consulted only if left accepted), Or = either (right consulted only if left rejected).
-#[kani::proof]
-#[kani::unwind(6)]
-fn c01_filter_and_or_short_circuit() {
+#[cfg_attr(kani, kani::proof)]
+#[cfg_attr(kani, kani::unwind(6))]
+pub(crate) fn c01_filter_and_or_short_circuit() {
     let v: u64 = kani::any();
     let (a, b): (bool, bool) = (kani::any(), kani::any());
     let props = [("k", v)];
